@@ -31,10 +31,11 @@ func parseAckFrequencyFrame(b []byte, _ protocol.Version) (*AckFrequencyFrame, i
 	if err != nil {
 		return nil, 0, replaceUnexpectedEOF(err)
 	}
-	// prevents overflows if the peer sends a very large value
-	maxAckDelay := time.Duration(mad) * time.Microsecond
-	if maxAckDelay < 0 {
-		maxAckDelay = math.MaxInt64
+	// prevents overflows if the peer sends a very large value: the multiplication wraps around
+	// silently, also to positive values, so compare before multiplying
+	maxAckDelay := time.Duration(math.MaxInt64)
+	if mad <= uint64(math.MaxInt64/int64(time.Microsecond)) {
+		maxAckDelay = time.Duration(mad) * time.Microsecond
 	}
 	b = b[l:]
 	rth, l, err := quicvarint.Parse(b)
